@@ -79,9 +79,19 @@ void h_set_failure(int i, const char* file, unsigned long line, const char* mess
     run_[i].fails_ = 1; run_[i].failFile_ = file; run_[i].failLine_ = line; run_[i].failMessage_ = message;
 }
 void h_set_second_failure(int i) { run_[i].fails_ = 2; }
+// an earlier test group of the same run (its own file): one failing test; what it leaves behind must not leak into the next group's file
+static ScriptedShell* prelude_;
+void h_prelude_failing_group(void)
+{
+    static ScriptedShell p;
+    p.setGroupName("zz"); p.setTestName("p"); p.setFileName("f"); p.setLineNumber(1);
+    p.fails_ = 1; p.failFile_ = "f"; p.failLine_ = 2; p.failMessage_ = "m";
+    prelude_ = &p;
+}
 void h_run(int n)
 {
     for (int i = n - 1; i >= 0; i--) reg_->addTest(chosen_[i]);      // addTest prepends
+    if (prelude_) reg_->addTest(prelude_);                            // runs first, in its own group
     reg_->runAllTests(*res_);
 }
 }
